@@ -621,6 +621,58 @@ def used_function_keys(m, fkeys=None):
     return used
 
 
+def callee_first(m):
+    """A copy of the model with `functions` ordered callees-first (the order carries no meaning in ONNX,
+    but onnx.reference resolves functions in list order)."""
+    import onnx
+
+    keys = {(f.domain, f.name): f for f in m.functions}
+    order, seen = [], set()
+
+    def uses(f):
+        out = []
+
+        def walk(nodes):
+            for nd in nodes:
+                if (nd.domain, nd.op_type) in keys:
+                    out.append((nd.domain, nd.op_type))
+                for a in nd.attribute:
+                    if a.type == onnx.AttributeProto.GRAPH:
+                        walk(a.g.node)
+                    elif a.type == onnx.AttributeProto.GRAPHS:
+                        for g in a.graphs:
+                            walk(g.node)
+
+        walk(f.node)
+        return out
+
+    def visit(k, stack=()):
+        if k in seen or k in stack:
+            return
+        for u in uses(keys[k]):
+            visit(u, stack + (k,))
+        seen.add(k)
+        order.append(k)
+
+    for k in keys:
+        visit(k)
+    m2 = onnx.ModelProto()
+    m2.CopyFrom(m)
+    del m2.functions[:]
+    m2.functions.extend(keys[k] for k in order)
+    return m2
+
+
+def reference_loads(m):
+    from onnx.reference import ReferenceEvaluator
+
+    try:
+        ReferenceEvaluator(callee_first(m))
+        return True, ""
+    except Exception as e:  # noqa: BLE001
+        return False, str(e)[:200]
+
+
 def judge_model(m, want_ort=True):
     """All model-free validity judges of C02 on a returned ModelProto. -> list of (kind, detail)."""
     import onnx
@@ -649,8 +701,19 @@ def judge_model(m, want_ort=True):
             so.log_severity_level = 4
             ort.InferenceSession(m.SerializeToString(), so, providers=["CPUExecutionProvider"])
         except Exception as e:  # noqa: BLE001
-            bad.append(("ort-load", str(e)[:300]))
+            # onnxruntime's support for (nested) functions is incomplete: a model with functions that ORT
+            # refuses but the ONNX reference runtime loads is recorded as runtime-unsupported, not a failure
+            ok_ref = False
+            if len(m.functions) and not bad:
+                ok_ref, _ = reference_loads(m)
+            if ok_ref:
+                ORT_UNSUPPORTED.append(str(e)[:120])
+            else:
+                bad.append(("ort-load", str(e)[:300]))
     return bad
+
+
+ORT_UNSUPPORTED: list = []
 
 
 def run_ort(m, feeds):
@@ -667,7 +730,7 @@ def run_ort(m, feeds):
 def run_reference(m, feeds):
     from onnx.reference import ReferenceEvaluator
 
-    s = ReferenceEvaluator(m)
+    s = ReferenceEvaluator(callee_first(m))
     names = [i.name for i in m.graph.input]
     outs = s.run(None, {n: feeds[n] for n in names})
     return {o.name: np.asarray(v) for o, v in zip(m.graph.output, outs)}
@@ -974,6 +1037,19 @@ def rename_adversarial(spec, rng, harvested):
             while io[0] in seen:
                 io[0] = io[0] + "_"
             seen.add(io[0])
+    if rng.random() < 0.25:
+        # user-chosen function names that look like generated node names; inlined node names to match
+        for f in spec["funcs"]:
+            if f and rng.random() < 0.5:
+                # (not the name of a standard operator: onnxruntime 1.30 aborts the process on a function
+                #  called dom:Add with one input - a runtime bug, not a property of the model)
+                f["name"] = rng.choice(["Inline_0__n0", "Inline_1__n1", "Inline_0__nw", "Introduce_0_id",
+                                        "If_0_then_branch__Inline_0__n0", "Loop_0_body__Inline_0__n0"])
+        for ms in spec["models"]:
+            if "nodes" in ms:
+                for nd in ms["nodes"]:
+                    if nd[1] and rng.random() < 0.5 and not any(x[1] == nd[1] + "_0" for x in ms["nodes"]):
+                        nd[1] = nd[1] + "_0"
     if p > 0.35:
         for ms in spec["models"]:
             if "nodes" not in ms:
@@ -1000,3 +1076,156 @@ def rename_adversarial(spec, rng, harvested):
                         nd[1] = n
                         nn_used.add(n)
     return spec
+
+
+# ----------------------------------------------------------------------------- shrinking
+def _stmt_lists(spec):
+    """Every statement list of the spec (top level, bodies, function bodies), as mutable lists."""
+    out = []
+
+    def walk(stmts):
+        out.append(stmts)
+        for st in stmts:
+            if st[0] == "if":
+                walk(st[2]["stmts"])
+                walk(st[3]["stmts"])
+            elif st[0] == "loop":
+                walk(st[3]["stmts"])
+
+    walk(spec["stmts"])
+    for f in spec["funcs"]:
+        if f:
+            walk(f["body"]["stmts"])
+    return out
+
+
+def shrink(spec, still_fails, budget=150):
+    """Greedy, index-preserving shrink: drop outputs; replace a statement by as many constants as it has
+    results (so no reference moves); simplify versions. `still_fails(spec) -> bool`."""
+    best = copy.deepcopy(spec)
+    tries = 0
+
+    def attempt(cand):
+        nonlocal best, tries
+        tries += 1
+        try:
+            if still_fails(cand):
+                best = cand
+                return True
+        except Exception:  # noqa: BLE001
+            pass
+        return False
+
+    changed = True
+    while changed and tries < budget:
+        changed = False
+        for i in range(len(best["outputs"]) - 1, -1, -1):
+            if len(best["outputs"]) > 1 and tries < budget:
+                cand = copy.deepcopy(best)
+                del cand["outputs"][i]
+                changed |= attempt(cand)
+        shape = [len(x) for x in _stmt_lists(best)]
+        for li in range(len(shape)):
+            for si in range(shape[li] - 1, -1, -1):
+                if tries >= budget:
+                    break
+                cand = copy.deepcopy(best)
+                cls = _stmt_lists(cand)
+                if li >= len(cls) or si >= len(cls[li]):
+                    continue
+                cl = cls[li]
+                st = cl[si]
+                if st[0] in ("const",):
+                    continue
+                n = _nres(cand, st)
+                cl[si:si + 1] = [["const", [1.0, 2.0]] for _ in range(n)]
+                # positions are preserved only if the statement had exactly n results -> n statements
+                if n == 1 or st[0] != "op":
+                    changed |= attempt(cand)
+        if best.get("drop") and tries < budget:
+            cand = copy.deepcopy(best)
+            cand["drop"] = False
+            changed |= attempt(cand)
+    return best
+
+
+# ----------------------------------------------------------------------------- crash-proof parallel map
+def robust_map(fn, tasks, nproc, workdir, stall_timeout=180):
+    """Like Pool.map for JSON-able results, but a worker that dies (a C++ abort inside onnx/onnxruntime)
+    or stalls only costs the case it was working on: that case gets {"crash": ...} and the rest of its
+    slice is re-run in a fresh process. Deterministic: results are indexed by task position."""
+    import json as _json
+    import multiprocessing as _mp
+    import os
+    import shutil
+    import time
+
+    ctx = _mp.get_context("fork")
+    workdir = os.path.join(str(workdir), f"pool-{os.getpid()}")
+    shutil.rmtree(workdir, ignore_errors=True)
+    os.makedirs(workdir, exist_ok=True)
+    results = [None] * len(tasks)
+
+    def child(indices, path):
+        with open(path, "a") as fh:
+            for i in indices:
+                fh.write(_json.dumps({"start": i}) + "\n")
+                fh.flush()
+                try:
+                    r = fn(tasks[i])
+                except BaseException as e:  # noqa: BLE001
+                    r = {"crash": f"{type(e).__name__}: {e}", "status": "crash", "spec": None}
+                fh.write(_json.dumps({"i": i, "r": r}, default=str) + "\n")
+                fh.flush()
+        os._exit(0)
+
+    slices = [list(range(k, len(tasks), nproc)) for k in range(nproc)]
+    gen = 0
+    while any(slices):
+        procs = []
+        for k, idxs in enumerate(slices):
+            if not idxs:
+                continue
+            path = os.path.join(workdir, f"g{gen}-s{k}.jsonl")
+            p = ctx.Process(target=child, args=(idxs, path))
+            p.start()
+            procs.append((k, p, path))
+        # wait, killing stalled workers
+        last_size = {k: (-1, time.time()) for k, _, _ in procs}
+        alive = True
+        while alive:
+            alive = False
+            for k, p, path in procs:
+                if p.is_alive():
+                    alive = True
+                    sz = os.path.getsize(path) if os.path.exists(path) else 0
+                    if sz != last_size[k][0]:
+                        last_size[k] = (sz, time.time())
+                    elif time.time() - last_size[k][1] > stall_timeout:
+                        p.kill()
+            if alive:
+                time.sleep(0.05)
+        new_slices = [[] for _ in slices]
+        for k, p, path in procs:
+            done, started = set(), None
+            if os.path.exists(path):
+                for ln in open(path):
+                    try:
+                        d = _json.loads(ln)
+                    except ValueError:
+                        continue
+                    if "start" in d:
+                        started = d["start"]
+                    else:
+                        results[d["i"]] = d["r"]
+                        done.add(d["i"])
+            rest = [i for i in slices[k] if i not in done]
+            if rest:
+                culprit = started if started in rest else rest[0]
+                results[culprit] = {"crash": f"worker process died or stalled (exit code {p.exitcode}) on this case",
+                                    "status": "crash", "spec": None, "died": True, "task": list(tasks[culprit])}
+                new_slices[k] = [i for i in rest if i != culprit]
+        slices = new_slices
+        gen += 1
+    shutil.rmtree(workdir, ignore_errors=True)
+    return results
